@@ -138,7 +138,7 @@ func registerMore() {
 	})
 }
 
-var threadAssumption = "sync.Mutex/WaitGroup, channels, select and context are engine intrinsics; x/sync/semaphore and mds/queue are executed from source; scheduler: context switches at blocking operations only (preemption bound 0), at most `delays` deviations from the deterministic lowest-thread-first order"
+var threadAssumption = "sync.Mutex/WaitGroup, channels, select and context are engine intrinsics; x/sync/semaphore and mds/queue are executed from source; scheduler: context switches at blocking operations (quick tier: only there, preemption bound 0; thorough tier of the harnesses whose evidence shows preemption_bound 1: also once per run at a non-blocking synchronisation operation), at most `delays` deviations from the deterministic lowest-thread-first order"
 
 // sched: delay bounds per tier, and a preemption bound for the thorough tier
 // (a thread may also be switched out at a non-blocking synchronisation
@@ -204,12 +204,12 @@ func registerMore2() {
 		ID: "C18",
 		Explanation: "Bridge.ServeHTTP is executed with a real server.Local behind it (server and client goroutines as engine threads) on one HTTP request: method in {POST, GET, PUT}, content type in {application/json, +charset=utf-8, +charset=latin1, text/plain, none}, body invalid JSON or 1..2 (thorough 3) members that are symbolically a call to an echo method (arbitrary string/number id, params token), a notification, a statically invalid member with a usable id, or one without. " +
 			"The recorded status and body are compared with the expected responses: caller's id text on every response, result equal to that call's own params, error objects for static errors, object vs array, 204 for notifications only, 405/415/error status without running a handler. A second harness runs two concurrent HTTP callers that use the same id (arbitrary, or equal to the small integers the bridge uses internally) for different calls, one of them slow; the slow caller's record is a single call or a batch whose call is preceded by a notification.",
-		Bounds:      []string{"<= 2 members per request (thorough 3)", "2 concurrent callers, one call each (optionally preceded by one notification)", "delay bound 2 (thorough 3)"},
+		Bounds:      []string{"<= 2 members per request (thorough 3)", "2 concurrent callers, one call each (optionally preceded by one notification)", "delay bound 2 (thorough: 2 with preemption bound 1)"},
 		Outside:     []string{"real HTTP transport", "a ParseRequest hook", "ids of other JSON kinds (covered by ParseRequests in C13)"},
 		Assumptions: append([]string{jsonAssumption, threadAssumption, "net/http.Header from source; mime.ParseMediaType run natively on the (concrete) header value; http.ResponseWriter and request body are harness recorders; io.ReadAll returns the harness body"}, commonAssumptions...),
 		Harnesses: []HarnessSpec{
 			{Dir: "jhttp", Name: "Harness_C18_bridge", Reach: []string{"405", "415", "bad-json", "204", "single", "array"}},
-			{Dir: "jhttp", Name: "Harness_C18_concurrent", Reach: []string{"concurrent"}, Tweak: delays(2, 3)},
+			{Dir: "jhttp", Name: "Harness_C18_concurrent", Reach: []string{"concurrent"}, Tweak: sched(2, 2, 1)},
 		},
 	})
 	addProp(&PropSpec{
@@ -235,7 +235,7 @@ func registerMore2() {
 		Outside:     []string{"a real net.Listener and real sockets under NetAccepter (a scripted in-memory listener is used)", "handler durations (no handlers run here)"},
 		Assumptions: append([]string{threadAssumption}, commonAssumptions...),
 		Harnesses: []HarnessSpec{{Dir: "server", Name: "Harness_C20_loop", Reach: []string{"waits-for-servers", "finished", "assigner-failed", "accept-error", "done"}, Tweak: delays(2, 3)},
-			{Dir: "server", Name: "Harness_C20_netaccepter", Reach: []string{"net-done"}, Tweak: delays(2, 3),
+			{Dir: "server", Name: "Harness_C20_netaccepter", Reach: []string{"net-done"}, Tweak: sched(2, 3, 1),
 				Bounds: map[string]string{"purpose": "Loop over the real NetAccepter with a scripted net.Listener (0..1 connections, blocks until closed, then net.ErrClosed): the context ends before Loop starts, while Loop is blocked in Accept, or between two Accept calls"}}},
 	})
 	addProp(&PropSpec{
@@ -275,8 +275,8 @@ func registerMore2() {
 		Outside:     []string{"reply ids that are textually different but numerically equal to a pending id (e.g. 01, 1.0) are 'other ids' (the client compares text)", "grouping of replies into arrays is a sequence of deliverLocked steps (covered by induction, not run as one record)"},
 		Assumptions: append([]string{jsonAssumption, threadAssumption, "strconv.FormatInt of a symbolic integer is an opaque decimal token, injective in the integer"}, commonAssumptions...),
 		Harnesses: []HarnessSpec{{Dir: "jrpc2", Name: "Harness_C04_step", Reach: []string{"delivered", "unknown-id", "sent", "notes-only", "send-failed"}, Tweak: delays(2, 3)},
-			{Dir: "jrpc2", Name: "Harness_C04_stream", Reach: []string{"stream-done"}, Tweak: delays(2, 3)},
-			{Dir: "jrpc2", Name: "Harness_C04_batchstream", Reach: []string{"batchstream-done"}, Tweak: delays(2, 3)}},
+			{Dir: "jrpc2", Name: "Harness_C04_stream", Reach: []string{"stream-done"}, Tweak: sched(2, 2, 1)},
+			{Dir: "jrpc2", Name: "Harness_C04_batchstream", Reach: []string{"batchstream-done"}, Tweak: sched(2, 3, 1)}},
 	})
 	addProp(&PropSpec{
 		ID:          "C05",
@@ -285,8 +285,8 @@ func registerMore2() {
 		Outside:     []string{"'leaving no goroutine behind' beyond the threads of one step", "deadline (as opposed to cancel) contexts in the step harness: filterError's mapping of both codes is decided in C14"},
 		Assumptions: append([]string{jsonAssumption, threadAssumption}, commonAssumptions...),
 		Harnesses: []HarnessSpec{{Dir: "jrpc2", Name: "Harness_C04_step", Reach: []string{"cancelled", "deadline", "too-late-cancel", "stopped", "stopped-send", "send-failed"}, Tweak: delays(2, 3)},
-			{Dir: "jrpc2", Name: "Harness_C10_client", Reach: []string{"closed", "close-waits"}, Tweak: delays(2, 3)},
-			{Dir: "jrpc2", Name: "Harness_C04_batchstream", Reach: []string{"batchstream-done"}, Tweak: delays(2, 3)}},
+			{Dir: "jrpc2", Name: "Harness_C10_client", Reach: []string{"closed", "close-waits"}, Tweak: sched(2, 2, 1)},
+			{Dir: "jrpc2", Name: "Harness_C04_batchstream", Reach: []string{"batchstream-done"}, Tweak: sched(2, 3, 1)}},
 	})
 	addProp(&PropSpec{
 		ID: "C10",
@@ -296,7 +296,7 @@ func registerMore2() {
 		Outside:     []string{"workloads outside those harnesses; preemption inside a critical section is excluded by the lock-held assertion itself", "a handler or OnCallback handler returning an *Error whose Data is not valid JSON (documented as JSON): the library then cannot encode its reply"},
 		Assumptions: append([]string{jsonAssumption, threadAssumption}, commonAssumptions...),
 		Harnesses: []HarnessSpec{
-			{Dir: "jrpc2", Name: "Harness_C10_client", Reach: []string{"closed"}},
+			{Dir: "jrpc2", Name: "Harness_C10_client", Reach: []string{"closed"}, Tweak: sched(2, 2, 1)},
 			{Dir: "jrpc2", Name: "Harness_C02_envelope", Reach: []string{"answered", "padded", "undeliverable-notification"}},
 			{Dir: "jrpc2", Name: "Harness_C08_run", Reach: []string{"restarted"}, Tweak: delays(1, 2)},
 			{Dir: "jrpc2", Name: "Harness_C03_order", Reach: []string{"done"}, Tweak: delays(1, 2)},
@@ -312,9 +312,9 @@ func registerMore2() {
 		Assumptions: append([]string{jsonAssumption, threadAssumption}, commonAssumptions...),
 		Harnesses: []HarnessSpec{
 			{Dir: "jrpc2", Name: "Harness_C06_opts", Reach: []string{"explicit", "default"}},
-			{Dir: "jrpc2", Name: "Harness_C06_run", Reach: []string{"done"}, Tweak: delays(2, 3)},
-			{Dir: "jrpc2", Name: "Harness_C06_callback", Reach: []string{"waiting-in-callback", "done"}},
-			{Dir: "jrpc2", Name: "Harness_C06_builtin", Reach: []string{"builtin-done"}},
+			{Dir: "jrpc2", Name: "Harness_C06_run", Reach: []string{"done"}, Tweak: sched(2, 2, 1)},
+			{Dir: "jrpc2", Name: "Harness_C06_callback", Reach: []string{"waiting-in-callback", "done"}, Tweak: sched(2, 3, 1)},
+			{Dir: "jrpc2", Name: "Harness_C06_builtin", Reach: []string{"builtin-done"}, Tweak: sched(2, 3, 1)},
 		},
 	})
 	addProp(&PropSpec{
@@ -333,7 +333,7 @@ func registerMore2() {
 		Bounds:      []string{"<= 2 outstanding callbacks (thorough 4)", "batch <= 2 (thorough 4)", "callback counter any value in [1, 2^40)"},
 		Outside:     []string{"more than one callback awaited from inside handlers at once"},
 		Assumptions: append([]string{jsonAssumption, threadAssumption}, commonAssumptions...),
-		Harnesses: []HarnessSpec{{Dir: "jrpc2", Name: "Harness_C09_parked", Reach: []string{"parked-done"}, Tweak: delays(2, 3)}, {Dir: "jrpc2", Name: "Harness_C09_step", Reach: []string{"notify-unsupported", "notify-closed", "notified", "callback-unsupported", "callback-closed",
+		Harnesses: []HarnessSpec{{Dir: "jrpc2", Name: "Harness_C09_parked", Reach: []string{"parked-done"}, Tweak: sched(2, 2, 1)}, {Dir: "jrpc2", Name: "Harness_C09_step", Reach: []string{"notify-unsupported", "notify-closed", "notified", "callback-unsupported", "callback-closed",
 			"callback-replied", "callback-cancelled", "callback-stopped", "reply-matched", "late-reply-dropped", "ctx-ended", "ctx-too-late"}}},
 	})
 	addProp(&PropSpec{
